@@ -115,6 +115,8 @@ val ir_step : env -> (prop_ir list * st) -> relem -> prop_ir list * st
 
 val type_expr : str option -> node
 
+val num_to_string : str -> str
+
 val default_matches : node -> node -> bool
 
 val find_default : (node * node) list -> node -> node option
